@@ -24,6 +24,9 @@ func runC13(p *Prog, r *Report) {
 	if want("C13.2") {
 		ruleEntryGates(p, r, "C13.2")
 	}
+	if want("C13.10") {
+		ruleBlockRangeSlicing(p, r, "C13.10")
+	}
 	if want("C13.9") {
 		ruleRestartSearch(p, r, "C13.9")
 	}
